@@ -511,6 +511,11 @@ pub fn rejoin_routable(ctx: &mut Ctx) {
 pub fn rejoin_reply(ctx: &mut Ctx) {
     rejoin(ctx, 4)
 }
+/// C04: every kind, judged for "the peer admitted again under its identity is a peer": heard,
+/// reachable, labelled with its identity, its connection kept
+pub fn rejoin_registered(ctx: &mut Ctx) {
+    rejoin(ctx, 5)
+}
 fn rejoin(ctx: &mut Ctx, judge: u8) {
     let kind = if judge == 2 { Kind::Dealer } else if judge == 3 { Kind::Router } else if judge == 4 { Kind::Rep } else { [Kind::Router, Kind::Dealer, Kind::Rep, Kind::Pull, Kind::Xpub, Kind::Sub][(ctx.idx % 6) as usize] };
     let timing = (ctx.idx / 6) % 4; // when the second connection is opened
@@ -708,12 +713,19 @@ fn rejoin(ctx: &mut Ctx, judge: u8) {
     ctx.check_panics();
     let o = out.borrow();
     for (c, d) in o.1.clone() {
-        if judge == 1 && c != "rejoined_peer_not_heard" || judge == 2 && c != "rejoined_peer_not_reachable" || judge == 3 && !matches!(c, "rejoined_peer_not_reachable" | "rejoined_peer_label_wrong") || judge == 4 && !matches!(c, "rejoined_peer_not_reachable" | "reply_on_the_old_connection") {
+        if judge == 1 && c != "rejoined_peer_not_heard" || judge == 2 && c != "rejoined_peer_not_reachable" || judge == 3 && !matches!(c, "rejoined_peer_not_reachable" | "rejoined_peer_label_wrong") || judge == 4 && !matches!(c, "rejoined_peer_not_reachable" | "reply_on_the_old_connection") || judge == 5 && !matches!(c, "rejoined_peer_not_heard" | "rejoined_peer_not_reachable" | "rejoined_peer_label_wrong") {
             continue;
         }
         ctx.violation(&format!("{c}:{}", kind.name()), d);
     }
-    if o.0 && judge != 0 {
+    if o.0 && judge == 5 {
+        if let Some(c) = o.2.get(1) {
+            if c.released(1) {
+                ctx.violation(&format!("new_connection_dropped:{}", kind.name()), format!("{} (rejoin timing {timing}): the socket closed the live connection of the peer it had admitted again", kind.name()));
+            }
+        }
+        ctx.nontrivial();
+    } else if o.0 && judge != 0 {
         ctx.nontrivial();
     } else if o.0 {
         if let Some(c) = o.2.first() {
